@@ -4,7 +4,7 @@ import ast
 from . import rule, info
 from ..program import AnalysisError, src, norm, ClassInfo
 from ..pattern import match, matches
-from ..util import (exclusive, branch_of, polarity, cond_expr, is_name, calls_in, callee_qual, deref, ancestors, handler_outcomes, handler_body_nodes,
+from ..util import (clone, exclusive, branch_of, polarity, cond_expr, is_name, calls_in, callee_qual, deref, ancestors, handler_outcomes, handler_body_nodes,
                     enclosing_trys, handler_covers, completes_normally, evaluator_calls, fmt_witness)
 
 info('C05',
@@ -727,7 +727,7 @@ def error_pushed_down_every_level(ctx):
                 return node
         import copy
         try:
-            bnd = linear(L().visit(copy.deepcopy(t.comparators[0])), {'__L__': (1, 0)})
+            bnd = linear(L().visit(clone(t.comparators[0])), {'__L__': (1, 0)})
         except NotAffine:
             bnd = None
         ok = bnd == (1, -max(offs)) and min(offs) == 0
